@@ -24,7 +24,7 @@ EXPLANATION = (
     "frames; inverse laws on values."
 )
 LEVEL_RULE = "one obligation per (method) / (constructor parameter) / (constructor call, attribute) / raise"
-FLOORS = {"R1": 10, "R2": 28, "R3": 20, "R4": 8, "R5": 10, "R6": 2, "R7": 1}
+FLOORS = {"R1": 10, "R2": 28, "R3": 20, "R4": 6, "R5": 10, "R6": 2, "R7": 1}
 
 COLUMN_CLASSES = ["pandera/api/pandas/components.py::Column", "pandera/api/polars/components.py::Column"]
 # attributes that a conversion between Column and Index legitimately sets itself / cannot carry over
@@ -213,7 +213,13 @@ def r4_raises(ctx):
             if f is None or f.qual in seen:
                 continue
             seen.add(f.qual)
-            for s in walk_no_nested(f.node):
+            bodies = [f.node]
+            for c2 in calls_in(f.node):
+                if isinstance(c2.func, ast.Name):
+                    h = f.module.functions.get(c2.func.id)
+                    if h is not None and h.node not in bodies:
+                        bodies.append(h.node)   # a validation helper extracted to module level still belongs to the method
+            for s in [x for b in bodies for x in walk_no_nested(b)]:
                 if isinstance(s, ast.Raise) and s.exc is not None:
                     e = s.exc.func if isinstance(s.exc, ast.Call) else s.exc
                     name = e.attr if isinstance(e, ast.Attribute) else (e.id if isinstance(e, ast.Name) else "?")
@@ -297,10 +303,27 @@ def r6_update_unfiltered(ctx):
     g = cont.method("update_columns")
     ctx.touched(g)
     up = g.positional[1] if len(g.positional) > 1 else "update_dict"
-    ups = [c for c in calls_in(g.node) if callee_last(c) == "update" and c.args]
-    ok = bool(ups) and all(isinstance(c.args[0], ast.Subscript) and txt(c.args[0].value) == up for c in ups)
+    gx = Expander(g.node)
+    srcs = [c.args[0] for c in calls_in(g.node) if callee_last(c) == "update" and c.args]
+    for c in calls_in(g.node):
+        for k in c.keywords:
+            if k.arg is None:
+                d = gx.expand(k.value)
+                if isinstance(d, ast.Dict):
+                    srcs += [vv for kk, vv in zip(d.keys, d.values) if kk is None]
+    mine = []
+    for e in srcs:
+        cl = gx.closure(e)
+        if any(isinstance(x, ast.Name) and x.id == up for d in cl for x in ast.walk(d)):
+            mine.append(cl)
+    filtered = [d for cl in mine for d in cl for x in ast.walk(d)
+                if isinstance(x, (ast.DictComp, ast.ListComp, ast.GeneratorExp)) and any(g_.ifs for g_ in x.generators)
+                and any(isinstance(y, ast.Name) and y.id == up for y in ast.walk(x))]
+    ok = bool(mine) and not filtered
     ctx.ob("R6", g, "update_columns: the per-column overrides are applied unfiltered", ok,
-           f"properties.update({up}[col])" if ok else "the overrides are transformed before being applied")
+           f"the properties are updated with {up}[<column>] as given" if ok else
+           ("the overrides pass through a filtering comprehension before being applied" if filtered else
+            f"no update of the column properties from `{up}` found"))
 
 
 def r7_add_columns_admission(ctx):
